@@ -99,7 +99,6 @@ func (c *perIPConn) Close() error {
 
 	err := cc.Close()
 	c.perIPConnCounter.Unregister(c.ip)
-	c.perIPConnCounter.perIPConnPool.Put(c)
 	return err
 }
 
@@ -143,8 +142,30 @@ func (c *perIPTLSConn) Close() error {
 
 	err := cc.Close()
 	c.perIPConnCounter.Unregister(c.ip)
-	c.perIPConnCounter.perIPTLSConnPool.Put(c)
 	return err
+}
+
+// releasePerIPConn returns a closed per-IP wrapper to its pool. The goroutine
+// that served the connection calls it after the terminal ConnState has been
+// reported, so that the hook never sees a wrapper that already carries the
+// next connection.
+func releasePerIPConn(c net.Conn) {
+	switch pc := c.(type) {
+	case *perIPConn:
+		pc.lock.Lock()
+		closed := pc.Conn == nil
+		pc.lock.Unlock()
+		if closed {
+			pc.perIPConnCounter.perIPConnPool.Put(pc)
+		}
+	case *perIPTLSConn:
+		pc.lock.Lock()
+		closed := pc.Conn == nil
+		pc.lock.Unlock()
+		if closed {
+			pc.perIPConnCounter.perIPTLSConnPool.Put(pc)
+		}
+	}
 }
 
 func getUint32IP(c net.Conn) uint32 {
